@@ -573,6 +573,13 @@ func (c *Channel) removeFromInFlightPQ(msg *Message) {
 		c.inFlightMutex.Unlock()
 		return
 	}
+	if msg.index >= len(c.inFlightPQ) || c.inFlightPQ[msg.index] != msg {
+		// the pqueue was reset (Empty) after this item left the in-flight
+		// dictionary, its index refers to the previous pqueue
+		msg.index = -1
+		c.inFlightMutex.Unlock()
+		return
+	}
 	c.inFlightPQ.Remove(msg.index)
 	c.inFlightMutex.Unlock()
 }
